@@ -58,6 +58,8 @@ def _argvs(fn: FunctionInfo, call: ast.Call) -> list[tuple[list[ast.expr], ast.F
     if len(stars) != 1 or not isinstance(stars[0].value, ast.Name):
         raise AnalysisError(f"{where(fn, call)}: argv with an unpacked operand that is not a loop variable; cannot be whitelisted")
     var = stars[0].value.id
+    if fn.node.args.vararg is not None and fn.node.args.vararg.arg == var and not stores_of(fn.node, var):
+        return [(argv, None)]  # `[..., *args]` with the function's own *args: expanded at the call sites of the function (lifting)
     loop = next((a for a in ancestors(call) if isinstance(a, ast.For) and isinstance(a.target, ast.Name) and a.target.id == var), None)
     table = loop.iter if loop is not None else None
     if isinstance(table, ast.Name):
@@ -79,7 +81,20 @@ class _Subst(ast.NodeTransformer):
         self.bound = bound
 
     def visit_Name(self, node: ast.Name) -> ast.AST:  # noqa: N802
-        return self.bound.get(node.id, node)
+        v = self.bound.get(node.id, node)
+        return node if isinstance(v, list) else v
+
+
+def _subst_argv(argv: list[ast.expr], bound: dict) -> list[ast.expr]:
+    import copy
+
+    out: list[ast.expr] = []
+    for e in argv:
+        if isinstance(e, ast.Starred) and isinstance(e.value, ast.Name) and isinstance(bound.get(e.value.id), list):
+            out += [copy.deepcopy(x) for x in bound[e.value.id]]  # the helper's *args: the extra positional arguments of the call
+        else:
+            out.append(_Subst(bound).visit(copy.deepcopy(e)))
+    return out
 
 
 def _must_run(h: FunctionInfo, call: ast.Call, loop: ast.For | None) -> bool:
@@ -155,20 +170,47 @@ def run(prog: Program, ctx: Ctx) -> None:  # noqa: PLR0912,PLR0915
                     ctx.ob("R3", f"{mod.name}|{norm(call)}", False, "process spawned at import time", f"{mod.relpath}:{call.lineno}")
 
     ctx.rule("R3", "every process-spawning call lives in the git module and runs a whitelisted git sub-command")
-    ctx.expect_min("R3", len(sites), 7)
     acquire: list[tuple[FunctionInfo, ast.Call, list[ast.expr], ast.expr | None]] = []
     releases: dict[str, list[tuple[FunctionInfo, ast.Call, list[ast.expr], ast.expr | None]]] = {}
     parsed = []
     # what stands for a spawn site further down: (function, node in that function, ...).  A site in a private helper of the git module (every call
     # site visible) is lifted to the helper's call sites: the node is the call of the helper, the operands are rewritten in the caller's terms.
     ORIG: dict[int, tuple[FunctionInfo, ast.Call, bool]] = {}  # id(lifted node) -> (helper, spawn call, runs on every normal path of the helper)
+    KW_CHAIN: dict[int, list[tuple[FunctionInfo, dict]]] = {}  # id(call of a helper) -> [(helper, what its parameters are bound to at that call)]
+
+    def site_kw(node: ast.Call, name: str) -> ast.expr | None:
+        """The value the spawn call behind a (possibly lifted) site receives for keyword `name`, in the caller's terms: a constant in the helper, or
+        the helper's parameter (the caller's keyword, else the parameter's default), or - when the helper forwards **kwargs - the caller's keyword."""
+        h, spawn_call, _m = ORIG.get(id(node), (None, node, True))
+        v = kwarg(spawn_call, name)
+        if h is None:
+            return v
+        for hf, bound in KW_CHAIN.get(id(node), []):
+            if hf is not h:
+                continue
+            a = hf.node.args
+            if v is None and a.kwarg is not None and any(k.arg is None and isinstance(k.value, ast.Name) and k.value.id == a.kwarg.arg for k in spawn_call.keywords):
+                return bound.get(name)
+            if isinstance(v, ast.Name) and v.id in [x.arg for x in (*a.posonlyargs, *a.args, *a.kwonlyargs)]:
+                if v.id in bound:
+                    return bound[v.id]
+                defaults = dict(zip([x.arg for x in a.kwonlyargs], a.kw_defaults))
+                pos = [x.arg for x in (*a.posonlyargs, *a.args)]
+                defaults.update(dict(zip(pos[len(pos) - len(a.defaults):], a.defaults)))
+                return defaults.get(v.id)
+        return v
     from sa.util import private_call_sites
 
     def bind(h: FunctionInfo, c: ast.Call) -> dict[str, ast.expr] | None:
         if any(isinstance(a, ast.Starred) for a in c.args) or any(k.arg is None for k in c.keywords):
             return None
         a = h.node.args
-        bound = dict(zip([x.arg for x in (*a.posonlyargs, *a.args)], c.args))
+        pos = [x.arg for x in (*a.posonlyargs, *a.args)]
+        bound: dict = dict(zip(pos, c.args))
+        if a.vararg is not None:
+            bound[a.vararg.arg] = list(c.args[len(pos):])
+        elif len(c.args) > len(pos):
+            return None
         bound.update({k.arg: k.value for k in c.keywords})
         return bound
 
@@ -184,7 +226,8 @@ def run(prog: Program, ctx: Ctx) -> None:  # noqa: PLR0912,PLR0915
             if bound is None:
                 yield fn, node, argv, must, spawn
                 return
-            argv2 = [_Subst(bound).visit(copy.deepcopy(e)) for e in argv]
+            argv2 = _subst_argv(argv, bound)
+            KW_CHAIN.setdefault(id(c), []).append((fn, bound))
             yield from lifted(g, c, argv2, must, spawn, depth + 1)
 
     for fn0, call0, name in sites:
@@ -228,6 +271,7 @@ def run(prog: Program, ctx: Ctx) -> None:  # noqa: PLR0912,PLR0915
                     releases.setdefault("worktree prune", []).append((fn, call, operands, repo))
                 ctx.ob("R3", key(fn0, f"{norm(call0, 60)}|{' '.join(words)}"), ok, f"git {' '.join(words)}: {why}", where(fn0, call0))
 
+    ctx.expect_min("R3", len(parsed), 7)  # commands run (a site in a helper counts once per call of the helper)
     if not acquire:
         raise AnalysisError("C20: no `git worktree add` site found (anchor vanished)")
 
@@ -281,8 +325,12 @@ def run(prog: Program, ctx: Ctx) -> None:  # noqa: PLR0912,PLR0915
             # (c) failing add must not reach the yield
             h_fn, spawn_call, _m = ORIG.get(id(call), (fn, call, True))
             res_names = [t.id for s in [stmt_of(spawn_call)] if isinstance(s, ast.Assign) for t in s.targets if isinstance(t, ast.Name)]
-            check_kw = kwarg(spawn_call, "check")
+            check_kw = site_kw(call, "check")
             checked = isinstance(check_kw, ast.Constant) and check_kw.value is True
+            returns_result = h_fn is not fn and any(isinstance(r_, ast.Return) and r_.value is spawn_call for r_ in walk_no_nested(h_fn.node))
+            if returns_result:
+                # the helper hands the completed process back: the caller's own test of its return code decides
+                res_names = [t.id for s in [stmt_of(call)] if isinstance(s, ast.Assign) for t in s.targets if isinstance(t, ast.Name)]
 
             def rc_ok(atom: ast.expr, truth: bool) -> bool:
                 if isinstance(atom, ast.Attribute) and atom.attr == "returncode" and isinstance(atom.value, ast.Name) and atom.value.id in res_names:
@@ -293,7 +341,7 @@ def run(prog: Program, ctx: Ctx) -> None:  # noqa: PLR0912,PLR0915
                     return isinstance(atom.ops[0], ast.Eq) and truth is True
                 return False
 
-            if h_fn is fn:
+            if h_fn is fn or returns_result:
                 guarded = checked or cfg.dominated_by_fact(y, rc_ok)
             else:
                 # the add happens in a helper: the helper returns normally only when it succeeded (every return / fall-through after the call is
@@ -330,6 +378,9 @@ def run(prog: Program, ctx: Ctx) -> None:  # noqa: PLR0912,PLR0915
         #     raising when check=True) no release statement is reachable - a `branch -D` there deletes a branch the user already had under that name
         h_fn_d, spawn_d, _m = ORIG.get(id(call), (fn, call, True))
         res_names_d = [t.id for s_ in [stmt_of(spawn_d)] if isinstance(s_, ast.Assign) for t in s_.targets if isinstance(t, ast.Name)]
+        returns_result_d = h_fn_d is not fn and any(isinstance(r_, ast.Return) and r_.value is spawn_d for r_ in walk_no_nested(h_fn_d.node))
+        if returns_result_d:
+            res_names_d = [t.id for s_ in [stmt_of(call)] if isinstance(s_, ast.Assign) for t in s_.targets if isinstance(t, ast.Name)]
         fail_nodes = []
         for x in cfg.live_nodes():
             if x.kind == "stmt" and isinstance(x.stmt, ast.Raise) and x in cfg.reach(acq_nodes, avoid=lambda n_: n_ in ynodes, normal_only=True):
@@ -339,8 +390,8 @@ def run(prog: Program, ctx: Ctx) -> None:  # noqa: PLR0912,PLR0915
                     fail_nodes.append(x)
         all_rel = {n_ for kind_ in ("worktree remove", "branch -D") for f2, c, _o, _r in releases.get(kind_, []) if f2 is fn for n_ in cfg_nodes_containing(cfg, c)}
         starts_d = list(fail_nodes)
-        ck = kwarg(spawn_d, "check")
-        if (isinstance(ck, ast.Constant) and ck.value is True) or h_fn_d is not fn:
+        ck = site_kw(call, "check")
+        if (isinstance(ck, ast.Constant) and ck.value is True) or (h_fn_d is not fn and not returns_result_d):
             # the failure leaves the (helper) call as an exception
             starts_d += [b for a in acq_nodes for b, lab in cfg.succ[a] if lab == "exc"]
         if starts_d:
@@ -393,7 +444,7 @@ def run(prog: Program, ctx: Ctx) -> None:  # noqa: PLR0912,PLR0915
             if f2 is not fn:
                 continue
             forced = any(isinstance(e, ast.Constant) and e.value in ("--force", "-f") for e in ops2)
-            ck = kwarg(ORIG.get(id(c), (fn, c, True))[1], "check")
+            ck = site_kw(c, "check")
             silent = isinstance(ck, ast.Constant) and ck.value is False
             ctx.ob("R2", key(fn, "worktree remove --force"), forced or not silent,
                    "`git worktree remove` without --force is refused when the checkout has untracked/modified files "
